@@ -96,6 +96,13 @@ class Rig:
         self.sigs: set = set()
 
     def _login(self, srv, msg):
+        self.logins = getattr(self, 'logins', 0) + 1
+        relogin = self.cfg.get('relogin')
+        if self.logins == 2 and relogin == 'slow':
+            return                      # the answer to the re-login is outstanding
+        if self.logins == 2 and relogin == 'eof':
+            srv.end.close()             # e.g. the same account logged in elsewhere meanwhile
+            return
         if self.login_mode == 'ok':
             srv.send(M.Login.Response(success=True, greeting='hi', ip='10.0.0.1', md5hash='x' * 32, privileged=False),
                      M.RoomList.Response(rooms=['r1', 'r9'], rooms_user_count=[3, 4], rooms_private_owned=[],
@@ -250,7 +257,7 @@ def run_config(cfg: dict) -> dict:
 
 
 DIMS = {
-    'ports': [(60000, 60001), (60000, 0), (0, 0)],
+    'ports': [(60000, 60001), (60000, 0), (0, 0), (0, 60001)],
     'friends': [[], ['f1'], ['f1', 'f2']],
     'interests': [([], []), (['a'], []), (['a', 'b'], ['c'])],
     'favorites': [[], ['r1', 'r2']],
@@ -299,11 +306,12 @@ BASE_B = {'ports': (60000, 60001), 'friends': ['f1', 'f2'], 'liked': ['a'], 'hat
 
 def run_placement(params: dict) -> dict:
     ERRORS.records.clear()
-    cfg = dict(BASE_B, reconnect=params['reconnect'], also_tracked=['ghost', 'f3'])
+    cfg = dict(BASE_B, reconnect=params['reconnect'], also_tracked=['ghost', 'f3'], relogin=params.get('relogin'))
     rig = Rig(cfg)
     world, client, server, net = rig.world, rig.client, rig.server, rig.cw.net
     action, point = params['action'], params['point']
     label = f"{action} at {point}, reconnect={'on' if params['reconnect'] else 'off'}" + (
+        f", re-login {params['relogin']}" if params.get('relogin') else '') + (
         f", server unreachable for {params['down']} s" if params.get('down') else '')
     try:
         world.op('boot', 'start', lambda: client.start(), record=False)
@@ -349,6 +357,8 @@ def run_placement(params: dict) -> dict:
             world.op('user', 'disconnect', lambda: client.network.disconnect_server(), record=False)
         elif action == 'stop':
             stop_slot = world.op('user', 'stop', lambda: client.stop(), record=False)
+        elif action == 'none':
+            pass
         n_connects_at_inject = len(net.connect_log)
         down = params.get('down', 0)
         if down:
@@ -392,6 +402,12 @@ def run_placement(params: dict) -> dict:
                         'C16:no-relogin')
             else:
                 check_advertised(rig, rig.frames(), label + ' (after reconnect)')
+        elif action == 'none' and params.get('relogin') == 'eof':
+            # the reconnect after the earlier reset is wanted; the EOF that answers its login must end it there
+            if len(server.sessions) != 2 or client.session is not None:
+                rig.add('unwanted-reconnect', f"{label}: {len(server.sessions)} server connections in total (expected the "
+                        f"first and one reconnect), session {'set' if client.session else 'None'}; close reasons {reasons}",
+                        'C16:unwanted-reconnect:after-eof-on-relogin')
         elif new_sessions:
             rig.add('unwanted-reconnect', f"{label}: {new_sessions} new server connection(s) were made (close reasons "
                     f"{reasons})", f'C16:unwanted-reconnect:{action}')
@@ -468,6 +484,11 @@ def placements(tier):
         for action in ('eof', 'reset', 'disconnect', 'stop'):
             for rec in (False, True):
                 out.append({'point': list(point), 'action': action, 'reconnect': rec})
+    # the automatic re-login is in progress (answer outstanding) or answered by an EOF
+    for relogin in ('slow', 'eof'):
+        for action in (('stop', 'disconnect', 'eof', 'reset') if relogin == 'slow' else ('none',)):
+            for dt in (10.0, 10.5, 12.0):
+                out.append({'point': ['lost', dt], 'action': action, 'reconnect': True, 'relogin': relogin})
     for down in (5, 15, 25):
         for rec in (False, True):
             for point in (('idle', 0), ('work', 5.0)):
